@@ -1,10 +1,3 @@
-//@ include prelude/head.rs
-use std::str::from_utf8;
-//@ include prelude/std_extra.rs
-//@ include prelude/error_types.rs
-//@ include prelude/crypto.rs
-//@ include spec/uri.rs
-//@ include spec/headers.rs
-//@ include prelude/hex.rs
+//@ include prelude/common.rs
 //@ include contracts/elements.rs
 //@ include prelude/tail.rs
